@@ -48,8 +48,12 @@ def make_ops(rng, cfg, profile, tier):
         elif r < 0.8:
             ops.append({'op': 'BIOGEME', 'a': [rng.choice(list(range(1, ni + 3)) + [0]), rng.randrange(5),
                                                rng.choice(['traj', 'mc'])]})
-        elif r < 0.86:
+        elif r < 0.83:
             ops.append({'op': 'MAP', 'a': []})
+        elif r < 0.85:
+            ops.append({'op': 'SHUFFLE_SIM_KEPT', 'a': [rng.randrange(1 << 16)]})
+        elif r < 0.86:
+            ops.append({'op': 'SPLIT', 'a': [rng.randrange(2, 5)]})
         elif r < 0.9:
             ops.append({'op': 'BOOT_EST', 'a': [rng.choice(list(range(1, ni + 3))), rng.randrange(5)]})
         else:
@@ -344,7 +348,56 @@ class Session:
             if T > len(ids_now):
                 ctx.probe('T > individuals')
             ctx.count('biogeme_objects')
+            self.kept = {'b': b, 'db': self.db, 'betas': dict(betas), 'form': form, 'lform': lform, 'names': list(names),
+                         'nrows': len(self.rows)}
             ctx.log(kind, T, k, fhex(ll))
+        elif kind == 'SHUFFLE_SIM_KEPT':
+            # an object built earlier on this Database; the blocks of individuals are then put in another order with
+            # pandas (same rows); its next simulation reports every individual's value under that individual's id
+            kept = getattr(self, 'kept', None)
+            if kept is None or kept['db'] is not self.db or kept['nrows'] != len(self.rows) or self.uses_draws():
+                ctx.log(kind, 'skip')
+            else:
+                order = sorted({r['pid'] for r in self.rows})
+                random.Random(a[0]).shuffle(order)
+                frames = [self.db.data[self.db.data['pid'] == i_] for i_ in order]
+                import pandas as pd
+                self.db.data = pd.concat(frames).reset_index(drop=True)
+                self.stale = True
+                for round_ in (1, 2):
+                    sim = kept['b'].simulate({n: kept['betas'][n] for n in kept['names']})
+                    self.compare(f"{kept['lform']} through simulate of an object built before the individuals were re-ordered "
+                                 f"(call {round_})", [float(v) for v in sim.index.to_list()], sim['log_like'].to_list(),
+                                 self.reference(kept['lform'], kept['betas']))
+                    self.compare(f"{kept['form']} through simulate of an object built before the individuals were re-ordered "
+                                 f"(call {round_})", [float(v) for v in sim.index.to_list()], sim['prob'].to_list(),
+                                 self.reference(kept['form'], kept['betas']))
+                self._after_eval(kept['form'])
+                ctx.probe('simulation by an object built before the individuals were re-ordered')
+                ctx.log(kind, len(order))
+        elif kind == 'SPLIT':
+            # folds of a panel table are made of whole individuals (no group column given: the panel column is used)
+            k_ = min(a[0], len({r['pid'] for r in self.rows}))
+            if k_ < 2:
+                ctx.log(kind, 'skip')
+            else:
+                folds = self.db.split(slices=k_)
+                all_tags = sorted(r['tag'] for r in self.rows)
+                seen_val = []
+                for fi_, fold in enumerate(folds):
+                    est_, val_ = fold.estimation, fold.validation
+                    ids_e = {float(v) for v in est_['pid'].to_list()}
+                    ids_v = {float(v) for v in val_['pid'].to_list()}
+                    if ids_e & ids_v:
+                        ctx.fail('I09.split', f'fold {fi_} of {k_}: the rows of individual(s) {sorted(ids_e & ids_v)} are spread over '
+                                              f'the estimation and the validation part')
+                    if sorted([float(t) for t in est_['tag'].to_list()] + [float(t) for t in val_['tag'].to_list()]) != all_tags:
+                        ctx.fail('I09.split', f'fold {fi_} of {k_}: estimation and validation parts together are not the table')
+                    seen_val += [float(t) for t in val_['tag'].to_list()]
+                if sorted(seen_val) != all_tags:
+                    ctx.fail('I09.split', f'the validation parts of the {k_} folds together are not the table, each row once')
+                ctx.probe('panel table split into folds of whole individuals')
+                ctx.log(kind, k_)
         elif kind == 'BOOT_EST':
             # an estimation with bootstrap on the panel object (individuals are resampled), then the likelihood of the
             # SAME object: it must be the one of the estimation data again
